@@ -1,5 +1,5 @@
 PROP = dict(
-    go='c13', n_quick=1500, n_thorough=6000,
+    go='c13', n_quick=1500, n_thorough=15000,
     coq_header='From LC Require Import Lib.Bytes Model.PMS Model.AtomMatch Cases.C13.\nOpen Scope string_scope.\n',
     case_type='C13.case', verdict='C13.verdict', explain='C13.model',
     rule='(dependency atom, installed package, parent flags) triples from the PMS grammar, printed and pushed '
